@@ -968,6 +968,7 @@ func c16ClientDelegationHistory(c *mon.Ctx, st *scriptedTransport, ds *dnsScript
 	var mu sync.Mutex
 	var hits []hit
 	var snis []string
+	var uris []string
 	mk := func(label string) *httptest.Server {
 		srv := httptest.NewUnstartedServer(http.HandlerFunc(func(w http.ResponseWriter, q *http.Request) {
 			mu.Lock()
@@ -977,6 +978,7 @@ func c16ClientDelegationHistory(c *mon.Ctx, st *scriptedTransport, ds *dnsScript
 				sni = q.TLS.ServerName
 			}
 			snis = append(snis, sni)
+			uris = append(uris, q.RequestURI)
 			mu.Unlock()
 			if q.URL.Path == "/verif/moved" {
 				w.Header().Set("Location", "/_matrix/federation/v1/version")
@@ -1184,8 +1186,43 @@ func c16ClientDelegationHistory(c *mon.Ctx, st *scriptedTransport, ds *dnsScript
 			})
 		}
 	}
+	// the request target travels as the caller wrote it: an escaped '/' (room version 3 event IDs), ':' or '$' in the
+	// path is part of what the sender signs (X-Matrix covers the URI), so the transport does not re-spell it (tenth
+	// seeding round, C13-U: the https URL rebuilt from Path and RawQuery alone)
+	for _, target := range []string{"/verif/a%2Fb%3Ac%24d", "/verif/a%2Fb?x=%2F&y=%3A", "/verif/plain/path?", "/verif/%E2%82%AC/%2f"} {
+		c.Case("client:request-target-as-written", map[string]any{"target": target}, func() {
+			c.Nontrivial("client-delegation|target|" + target)
+			cl := fclient.NewClient(fclient.WithSkipVerify(true), fclient.WithWellKnownSRVLookups(true), fclient.WithTimeout(5*time.Second))
+			req, err := http.NewRequest("GET", "matrix://b.hist.test"+target, nil)
+			if err != nil {
+				return
+			}
+			wantURI := req.URL.RequestURI()
+			mu.Lock()
+			hits, snis, uris = nil, nil, nil
+			mu.Unlock()
+			ctx, cancel := context.WithTimeout(context.Background(), 5*time.Second)
+			resp, err := cl.DoHTTPRequest(ctx, req)
+			if resp != nil {
+				resp.Body.Close()
+			}
+			cancel()
+			mu.Lock()
+			gotURIs := append([]string{}, uris...)
+			mu.Unlock()
+			c.Count("client_request_targets_compared")
+			if err != nil || len(gotURIs) != 1 {
+				c.Failf("client-delegation-history:request-not-delivered", "the request for b.hist.test%s gave err=%v and reached the server %d times", target, err, len(gotURIs))
+				return
+			}
+			if gotURIs[0] != wantURI {
+				c.Failf("client:request-target-respelt", "a request for the target %q arrived at the server as %q", wantURI, gotURIs[0])
+			}
+		})
+	}
 	c.Floor("client_delegation_history_requests", 10)
 	c.Floor("client_redirects_followed", 4)
+	c.Floor("client_request_targets_compared", 4)
 }
 
 // c16ClientSequences sends requests for several server names that share a host through ONE client that resolves and
